@@ -63,7 +63,7 @@ func main() {
 		raceDir, _ := os.MkdirTemp("", "verif-c07-race-")
 		r.Cleanup(func() { os.RemoveAll(raceDir) })
 		worker.Run(r, worker.Opts{Phase: "race", Total: r.N(60, 1500), Batch: 30, Bin: bin,
-			Env: []string{"GORACE=halt_on_error=0 log_path=" + filepath.Join(raceDir, "race")}})
+			Env: []string{"GORACE=halt_on_error=0 exitcode=0 log_path=" + filepath.Join(raceDir, "race")}})
 		n := countRaceReports(raceDir, r)
 		r.Set("race_reports_in_library", n)
 	}
